@@ -6,7 +6,7 @@
 From Coq Require Import String.
 From V.Lib Require Import Base Hex.
 From V.Gen Require Import C10Consts.
-From V.C10 Require Import Model Spec Corr Wf PF4 PCs PCont PTop PRegroup PB32a PB32b PB58 PCompl PTop2 PSort.
+From V.C10 Require Import Model Spec Corr Wf PF4 PCs PCont PTop PRegroup PB32a PB32b PB58 PCompl PTop2 PSort PConv.
 From Coq Require Import Permutation.
 From Coq Require Import List Lia ZifyBool ZifyNat.
 Local Open Scope N_scope.
@@ -255,4 +255,18 @@ Proof.
       rewrite Ws. cbn [on_ok andb]. rewrite E. cbn. apply bytes_eqb_refl.
     + reflexivity.
     + exfalso. exact (parse_address_total _ _ _ P).
+  - (* CConv *)
+    cbn [run_case prop_case wf_case] in *. rewrite convert_decision in R.
+    unfold wf_addr in W. apply andb_true_iff in W as [_ Wn].
+    destruct (spec_convertible a expected) eqn:C.
+    + destruct o as [a'|[x y]|]; cbn in R; try discriminate. apply addr_eqb_eq in R. subst a'.
+      cbn [andb].
+      assert (Nn : match a with ARaw n k _ => norm_net k n = n | AUni _ _ => True end).
+      { destruct a; [apply net_eqb_eq; exact Wn | exact I]. }
+      assert (Cv : convert_if_network a expected = Ok (with_net expected a)) by (rewrite convert_decision, C; reflexivity).
+      destruct (convert_canonical _ _ _ Nn Cv) as [Rb [Ne _]].
+      rewrite Ne, Rb, net_eqb_refl, addr_eqb_refl. reflexivity.
+    + destruct o as [a'|[x y]|]; cbn in R; try discriminate.
+      unfold pair_eqb in R. cbn [fst snd] in R. apply andb_true_iff in R as [R1 R2].
+      apply net_eqb_eq in R1, R2. subst x y. rewrite !net_eqb_refl. reflexivity.
 Qed.
